@@ -402,6 +402,25 @@ pub fn post_recovery_probe(root: &Path, cfg: &Cfg, rec: &State) -> Result<(), St
                 }
             }
             let fifo = matches!(h.ks.config.compaction_strategy.get_name(), "FifoCompaction");
+            // no worker threads here: a keyspace recovered with several sealed memtables would keep
+            // the writes below in back-pressure forever, so run the queued flushes first
+            let mut guard = 0;
+            while (h.ks.tree.sealed_memtable_count() >= 3 || h.ks.tree.l0_run_count() >= 18) && guard < 10_000 {
+                guard += 1;
+                match dbi.verif_worker_step() {
+                    Ok(true) => {}
+                    Ok(false) => {
+                        if h.ks.tree.sealed_memtable_count() >= 4 {
+                            return Err(format!("{n}: {} sealed memtables after recovery but no queued flush task (writers would stall forever)", h.ks.tree.sealed_memtable_count()));
+                        }
+                        if h.ks.tree.l0_run_count() >= 18 {
+                            h.ks.major_compact().map_err(|e| format!("major_compact after recovery: {e:?}"))?;
+                        }
+                        break;
+                    }
+                    Err(e) => return Err(format!("worker step after recovery: {e:?}")),
+                }
+            }
             // overwrite / remove recovered keys, add a new key
             let keys: Vec<Vec<u8>> = want[n].keys().take(6).cloned().collect();
             if !fifo {
